@@ -999,11 +999,28 @@ def m_vector_op(I, fr, st, t, args, key):
         if name in ('and', 'or', 'cmpeq') and repr(b) < repr(a):
             a, b = b, a        # commutative: canonical order
         return ret1(st, TermV((name, a, b)))
+    if name in ('movemask', 'movemask_will_have_non_zero'):
+        # the lane laws (E6) of these two methods are stated for vectors whose lanes are all-ones / all-zeros (the NEON
+        # movemask reads bit 7 of even and bit 3 of odd lanes): the argument must be built from comparisons
+        ok = bool_lanes(ts[0])
+        I.ob('AXIOM-PRE', fr, t['loc'], f'{name}: argument has Boolean lanes', ok,
+             '' if ok else f"{name} applied to a vector that is not a cmpeq result or an and/or of such: {str(ts[0])[:120]}")
     if name == 'movemask':
         return ret1(st, TermV(('movemask', ts[0], w)))
     if name == 'movemask_will_have_non_zero':
         return ret1(st, BoolV(('pred', True, 'nz', ts[0])))
     return None
+
+
+def bool_lanes(t):
+    """is the vector term lane-wise Boolean (every lane 0x00 or 0xFF)?"""
+    if not isinstance(t, tuple) or not t:
+        return False
+    if t[0] == 'cmpeq':
+        return True
+    if t[0] in ('and', 'or'):
+        return bool_lanes(t[1]) and bool_lanes(t[2])
+    return False
 
 
 def lanemask(T, lo):
